@@ -206,6 +206,12 @@ def check(prop, tier, seed):
     obligations, discharged, gate_problems, theorems = proof_gate(prop, tier)
     gen = props.GENERATORS[prop](tier, rng)
     cases = gen["cases"]
+    if prop in props.RENAMED_PROPS:
+        # a third of the cases once more under an order-preserving renaming into awkward variable names
+        extra = props.renamed_cases(prop, tier, seed)
+        cases = cases + extra
+        gen["dist"] = dict(gen.get("dist", {})); gen["dist"]["renamed_into_awkward_names"] = len(extra)
+        gen["rule"] += "; a third of the cases is run a second time under a random order-preserving renaming of the variables into awkward names (multi-character, numeric-looking, keyword-like, with blanks, non-ASCII, outside the BMP)"
 
     coverage = {
         "obligations": obligations, "discharged": discharged,
